@@ -47,7 +47,9 @@ EXPLANATION = (
     "functions) roles (aliases followed); (D4) SummationGraderBase.check: structure_and_validate_input (count check -> "
     "ConfigError) < blank-field test (loop, next() or any() form; MissingInput) < validate_user_dummy_variable "
     "(InvalidInput, both tests) < check_math_response by CFG dominance; normal forms of validate_input_positions and "
-    "transform_list_to_dict. A construct that is not found is a VIOLATION only when the enclosing function calls nothing "
+    "transform_list_to_dict; (D5) in get_limits_and_funcs / evaluate_sum / gen_evaluations / raw_check no in-place mutation "
+    "(mutating method, augmented or subscript store, del) reaches an object derived from a parse() or evaluator() result -- "
+    "those belong to the process-wide parser cache -- while union()/set()/copy() results are fresh. A construct that is not found is a VIOLATION only when the enclosing function calls nothing "
     "but reviewed callees and no unreviewed helper is left after inlining; otherwise it is undecided.")
 NOT_DECIDED = ("numeric equality of the two sums within tolerance (compare_evaluations, C04); values produced by the "
                "formula evaluator; IntegralGrader's quadrature (scipy absent; only the shared base class is covered); "
@@ -61,7 +63,7 @@ SB = 'mitxgraders.formulagrader.integralgrader.SummationGraderBase'
 
 
 def check(ctx):
-    _run_all(ctx, ctx.index, [d1_summation, d2_limits, d3_author, d4_order])
+    _run_all(ctx, ctx.index, [d1_summation, d2_limits, d3_author, d4_order, d5_pure])
 
 
 def _run_all(ctx, idx, fns):
@@ -910,9 +912,20 @@ def _closure(r, idx, fi, name):
            [s for s, _ in X.find_stmts(fn, "varscope.pop(summation_var)")] + [s for s, _ in X.find_stmts(fn, "varscope.pop(summation_var, None)")]
     cfg = cfg_of(fn)
     if not dels:
-        r.violation(construct, "varscope[summation_var] is never deleted: the author's index stays in the scope, so the student's sum with the "
-                    "same variable name is refused as 'conflicts with another previously-defined variable'", where,
-                    expected='del varscope[summation_var]')
+        outer = [s_ for pat_ in ("del varscope[summation_var]", "varscope.pop(summation_var)", "varscope.pop(summation_var, None)")
+                 for s_, _ in X.find_stmts(fi.node, pat_)]
+        if outer:
+            tolerant = any(isinstance(s_, ast.Expr) and len(s_.value.args) == 2 for s_ in outer)
+            r.violation(construct, "the index is not removed by the closure after each term but once, by `%s` after the summation: %s an "
+                        "error raised by a term leaves the index in the caller's scope, so the next sum over the same scope (the student's, "
+                        "after the author's) is refused as 'conflicts with another previously-defined variable'" % (
+                            short(outer[0]), '' if tolerant else "when the range is empty (e.g. odd-only sum over limits enclosing no odd "
+                            "integer) nothing was ever stored and the deletion raises KeyError instead of the sum being 0; also"),
+                        lib.loc(fi, outer[0]), expected='del varscope[summation_var] inside the closure, after every evaluation')
+        else:
+            X.absent(r, construct, "varscope[summation_var] is never deleted: the author's index stays in the scope, so the student's sum with "
+                     "the same variable name is refused as 'conflicts with another previously-defined variable'", where,
+                     expected='del varscope[summation_var]', understood=X.only_calls([fn], {'evaluator'}))
     else:
         starts = cfg.nodes_of(stores[0][0])
         through = [n for d in dels for n in cfg.nodes_of(d)]
@@ -1389,6 +1402,66 @@ def _helpers(r, idx):
             "the constructor no longer stores validate_input_positions(config['input_positions']) in true_input_positions", init.loc)
 
 
+# ----------------------------------------------------------------------------- D5
+SHARED_SOURCES = {'parse', 'evaluator'}      # parse() hands out the process-wide cached MathExpression; evaluator()'s usage
+                                             # record carries that object's own sets (EvalMetaData(functions_used=self.functions_used))
+
+
+def _shared(fe, e, summaries, stack=()):
+    """May the value of e be (part of) an object owned by the parser cache?  Copy idioms cut the relation."""
+    from ..effects import COPY_FUNCS, COPY_METHODS
+    if isinstance(e, ast.Call):
+        name = nf.callee_name(e)
+        if name in SHARED_SOURCES:
+            return True
+        if name in summaries:
+            return summaries[name]
+        return False                      # other calls (incl. set(), .union(), .copy()) return fresh objects
+    if isinstance(e, (ast.Attribute, ast.Subscript, ast.Starred)):
+        return _shared(fe, e.value, summaries, stack)
+    if isinstance(e, (ast.Tuple, ast.List)):
+        return any(_shared(fe, x, summaries, stack) for x in e.elts)
+    if isinstance(e, ast.IfExp):
+        return _shared(fe, e.body, summaries, stack) or _shared(fe, e.orelse, summaries, stack)
+    if isinstance(e, ast.BoolOp):
+        return any(_shared(fe, x, summaries, stack) for x in e.values)
+    if isinstance(e, ast.Name):
+        if e.id in stack:
+            return False
+        return any(_shared(fe, v, summaries, stack + (e.id,)) for kind, v in fe.assignments.get(e.id, []))
+    return False
+
+
+def d5_pure(ctx, idx):
+    r = ctx.rule('D5.PURE', "the sum's value and restrictions depend only on the current submission: nothing obtained from parse() / "
+                 "evaluator() (the process-wide parser cache) is modified in place", floor=4)
+    with r:
+        from ..effects import FunctionEffects
+        summaries = {}
+        glf = idx.func(SB + '.get_limits_and_funcs')
+        fe = FunctionEffects(glf, idx)
+        rets = lib.returns_of(glf.node)
+        summaries['get_limits_and_funcs'] = any(x.value is not None and _shared(fe, x.value, {}) for x in rets)
+        for q in (SB + '.get_limits_and_funcs', SG + '.evaluate_sum', SG + '.gen_evaluations', SB + '.raw_check'):
+            fi = idx.func(q)
+            fe = FunctionEffects(fi, idx)
+            bad = [m for m in fe.direct_mutations() if _shared(fe, m.target, summaries)]
+            name = q.split('.')[-1]
+            construct = '%s: no in-place modification of parser-owned objects' % name
+            if bad:
+                m = bad[0]
+                r.violation(construct, "`%s` modifies `%s` in place (%s); that object comes from parse()/evaluator(), i.e. it belongs to the "
+                            "MathExpression kept in the parser cache: the functions of this submission's limits stay attached to the cached "
+                            "expression, so later calls with the same summand see a stale used-function set (factorial cut-off 80 instead of "
+                            "the configured one, whitelist/blacklist/required-function checks on functions the student never typed)"
+                            % (short(lib.enclosing_stmt(m.node) or m.node, 80), short(m.target), m.how), lib.loc(fi, m.node),
+                            expected='a fresh set, e.g. a.union(b, c)')
+            else:
+                r.ok(construct, '%d mutation sites, none on a parser-owned object' % len(fe.direct_mutations()), fi.loc)
+        if summaries['get_limits_and_funcs']:
+            r.note('get_limits_and_funcs returns a parser-owned object; callers are checked against that')
+
+
 # ------------------------------------------------------------------------ self-test
 MUTANTS = [
     Mutant('upper-not-inclusive', IG, "range(int(lower), int(upper + 1), delta)", "range(int(lower), int(upper), delta)", 'D1'),
@@ -1421,10 +1494,14 @@ MUTANTS = [
     Mutant('limit-error-class', IG, "            raise SummationError('Upper summation limit does not evaluate to an integer.')",
            "            raise ValueError('Upper summation limit does not evaluate to an integer.')", 'D2'),
     Mutant('index-left-in-scope', IG, "            del varscope[summation_var]\n            return value", "            return value", 'D2'),
+    Mutant('index-removed-once-after-the-sum', IG, "            del varscope[summation_var]\n            return value\n\n        # Check if used_funcs includes a factorial function\n        if 'fact' in used_funcs or 'factorial' in used_funcs:\n            infty_val = self.config['infty_val_fact']\n        else:\n            infty_val = self.config['infty_val']\n\n        # Compute the sum\n        result = self.perform_summation(eval_summand, lower, upper, self.config['even_odd'], infty_val)\n",
+           "            return value\n\n        # Check if used_funcs includes a factorial function\n        if 'fact' in used_funcs or 'factorial' in used_funcs:\n            infty_val = self.config['infty_val_fact']\n        else:\n            infty_val = self.config['infty_val']\n\n        # Compute the sum\n        result = self.perform_summation(eval_summand, lower, upper, self.config['even_odd'], infty_val)\n        del varscope[summation_var]\n", 'D2'),
     Mutant('even-odd-ignored', IG, "self.perform_summation(eval_summand, lower, upper, self.config['even_odd'], infty_val)",
            "self.perform_summation(eval_summand, lower, upper, 0, infty_val)", 'D2'),
     Mutant('summand-without-functions', IG, "            value, _ = evaluator(summand_str,\n                                 variables=varscope,\n                                 functions=funcscope,",
            "            value, _ = evaluator(summand_str,\n                                 variables=varscope,\n                                 functions=varscope,", 'D2'),
+    Mutant('cached-function-set-updated-in-place', IG, "        used_funcs = lower_used.functions_used.union(upper_used.functions_used, expression_used.functions_used)\n",
+           "        used_funcs = expression_used.functions_used\n        used_funcs.update(lower_used.functions_used, upper_used.functions_used)\n", 'D5'),
     Mutant('author-handler-narrowed', IG, "            except MITxError as error:", "            except SummationError as error:", 'D3'),
     Mutant('author-error-class', IG, "                msg = \"Summation Error with author's stored answer: {}\"\n                raise ConfigError(msg.format(str(error)))",
            "                msg = \"Summation Error with author's stored answer: {}\"\n                raise SummationError(msg.format(str(error)))", 'D3'),
@@ -1452,6 +1529,8 @@ MUTANTS = [
 ]
 
 BENIGN = [
+    Benign('function-set-built-from-a-copy', IG, "        used_funcs = lower_used.functions_used.union(upper_used.functions_used, expression_used.functions_used)\n",
+           "        used_funcs = set(expression_used.functions_used)\n        used_funcs.update(lower_used.functions_used, upper_used.functions_used)\n"),
     Benign('limit-checks-in-a-loop', IG, "        if abs(lower) != float('inf') and int(lower) != lower:\n            raise SummationError('Lower summation limit does not evaluate to an integer.')\n        if abs(upper) != float('inf') and int(upper) != upper:\n            raise SummationError('Upper summation limit does not evaluate to an integer.')\n",
            "        for label, limit in (('Lower', lower), ('Upper', upper)):\n            if abs(limit) != float('inf') and int(limit) != limit:\n                raise SummationError('{} summation limit does not evaluate to an integer.'.format(label))\n"),
     Benign('complex-check-with-any', IG, "        if isinstance(lower, complex) or isinstance(upper, complex):\n            raise SummationError(", "        if any(isinstance(limit, complex) for limit in (lower, upper)):\n            raise SummationError("),
